@@ -661,3 +661,12 @@ Theorem c13_account_separators_refuted :
   (exists txt, passwd_after [colon_user] = Some txt /\ parse_users txt = None).
 Proof. exact separators_refuted. Qed.
 Print Assumptions c13_account_separators_refuted.
+(* which of the two worlds the source is in on this run: no test in Validate (the
+   hypothesis above holds), or Validate refuses both witnesses (fixes/C13-F5.patch) *)
+Example c13_account_separators_status :
+  validate_forbidden = [] \/ (validate_accounts [inject_user] [] = false /\ validate_accounts [colon_user] [] = false).
+Proof. first [left; reflexivity | right; split; vm_compute; reflexivity]. Qed.
+(* likewise for C13-F6: the path is used as written, or it is cleaned (fixes/C13-F6.patch) *)
+Example c13_empty_file_trailing_slash_status :
+  empty_file_path_cleaned = false \/ empty_file_target "/x/y/" = path_of "/x/y".
+Proof. first [left; reflexivity | right; vm_compute; reflexivity]. Qed.
